@@ -70,6 +70,8 @@ pub enum Ev {
     MockReply {
         b: usize,
         sid: u64,
+        /// seq of the first message of the request group this reply belongs to
+        first_seq: u64,
         seq: u64,
         bytes: Arc<Vec<u8>>,
         client: Option<String>,
